@@ -28,6 +28,7 @@ var kinds = []kindSpec{
 	{"string", reflect.TypeOf(""), []interface{}{"", "a", "ab", "abcd", "13800138000"}},
 	{"int32", reflect.TypeOf(int32(0)), []interface{}{int32(0), int32(2), int32(9)}},
 	{"[]int32", reflect.TypeOf([]int32(nil)), []interface{}{[]int32(nil), []int32{1, 2}, []int32{1, 2, 3, 4}}},
+	{"uint64", reflect.TypeOf(uint64(0)), []interface{}{uint64(0), uint64(2), uint64(1) << 63}},
 }
 
 // lists returns all rule lists (as item slices) of length 0..n over the menu.
@@ -338,7 +339,7 @@ func run(c *runner.Ctx) {
 				if k0 == 0 && (vi0 == 1 || vi0 == 4) && !c.Thorough() {
 					continue
 				}
-				for k1 := 0; k1 < 3; k1++ {
+				for k1 := 0; k1 < len(kinds); k1++ {
 					for _, it1 := range second {
 						for vi1, v1 := range kinds[k1].vals {
 							if vi1 > 2 {
@@ -389,7 +390,7 @@ func main() {
 	runner.Main(runner.Config{
 		Property:  "C02",
 		Technique: "bounded-exhaustive enumeration of synthesised struct types x rule lists x values vs walk reference model (exact clause strings, order, separators)",
-		Rule: "struct types from reflect.StructOf: 1 field (all rule lists of length<=3 over {required,to=2~3,eq=2,in=(a/b),phone,zz(unknown),either=1,botheq=1}, rendered plainly and with empty items, kinds string/int32/[]int32, 3-5 values), " +
+		Rule: "struct types from reflect.StructOf: 1 field (all rule lists of length<=3 over {required,to=2~3,eq=2,in=(a/b),phone,zz(unknown),either=1,botheq=1}, rendered plainly and with empty items, kinds string/int32/[]int32/uint64 (incl. 1<<63), 3-5 values), " +
 			"2 fields (lists<=2 x lists<=1|2), 3 fields (lists<=1); rules declared in tags and supplied per call; every 2-field type additionally as two objects with different values in []T, map[string]T (entries by value), map[int]*T and nested under a parent (map, slice, value, **T, []**T and map[string]**T fields); unique custom messages (message mode) and default wording; " +
 			"expected = ordered field clauses then group clauses (multiset); non-trivial = cases with >=2 expected clauses",
 		Assumptions: []string{"walk model internal/walk is the statement of C02/C04/C16/C17", "group clauses compared as a multiset (Go map order)"},
